@@ -89,7 +89,8 @@ LEAF_POOL = {
         datetime.time(7, 8, 9, tzinfo=TZ(TD(hours=-3, minutes=-15))),
     ],
     "timedelta": [TD(0), TD(seconds=1), TD(days=3, seconds=7, microseconds=250000), TD(days=-1, seconds=3), TD(microseconds=-1), TD(weeks=500)],
-    "timezone": [TZ.utc, TZ(TD(hours=3)), TZ(TD(hours=-5, minutes=-45)), TZ(TD(minutes=-30)), TZ(TD(hours=23, minutes=59)), TZ(TD(minutes=1))],
+    "timezone": [TZ.utc, TZ(TD(hours=3)), TZ(TD(hours=-5, minutes=-45)), TZ(TD(minutes=-30)), TZ(TD(hours=23, minutes=59)), TZ(TD(minutes=1)),
+                 TZ(TD(hours=1), "CET"), TZ(TD(0), "GMT"), TZ(TD(hours=-5), "EST")],   # named: equal to their unnamed twins
     "zoneinfo": [],
     "uuid": [uuid.UUID(int=0), uuid.UUID("12345678-1234-5678-1234-567812345678"), uuid.UUID(int=2**128 - 1)],
     "decimal": [decimal.Decimal("1.10"), decimal.Decimal("-0"), decimal.Decimal("1E+3"), decimal.Decimal("123456789012345678901234567890.000001"), decimal.Decimal("Infinity")],
@@ -132,12 +133,24 @@ def ref_parse_timezone(s):
     raise ValueError("bad tz")
 
 
+def ref_print_timezone(x):
+    """Independent writing of the documented format: 'UTC' or 'UTC±hh:mm', from the offset alone
+    (a timezone's name is not part of its value: timezone(1h, 'CET') == timezone(1h))."""
+    secs = x.utcoffset(None).total_seconds()
+    if secs == 0:
+        return "UTC"
+    if secs != int(secs) or int(secs) % 60:
+        return x.tzname(None)   # sub-minute offsets are outside the documented format (excluded as lossy)
+    mins = abs(int(secs)) // 60
+    return "UTC%s%02d:%02d" % ("+" if secs > 0 else "-", mins // 60, mins % 60)
+
+
 PRINTERS = {
     "datetime": lambda x: x.isoformat(),
     "date": lambda x: x.isoformat(),
     "time": lambda x: x.isoformat(),
     "timedelta": lambda x: x.total_seconds(),
-    "timezone": lambda x: x.tzname(None),
+    "timezone": ref_print_timezone,
     "zoneinfo": lambda x: str(x),
     "uuid": lambda x: str(x),
     "decimal": lambda x: str(x),
@@ -591,9 +604,24 @@ class _Tagged:
         return hash(self.marker)
 
 
+def _norm_tz(v):
+    """a timezone's name is not part of its value (timezone(1h, 'CET') == timezone(1h)): compare by offset"""
+    if isinstance(v, list):
+        if len(v) == 3 and v[0] == "leaf" and v[1] == "timezone" and isinstance(v[2], str):
+            try:
+                tz = eval(v[2], {"datetime": datetime})  # noqa: S307 - a repr produced by this harness
+                return ["leaf", "timezone", repr(datetime.timezone(tz.utcoffset(None)))]
+            except Exception:  # noqa
+                return v
+        return [_norm_tz(x) for x in v]
+    if isinstance(v, dict):
+        return {k: _norm_tz(x) for k, x in v.items()}
+    return v
+
+
 def same(a, b) -> bool:
     """canonical equality of two wire values: set order normalised already by canon."""
-    return json.dumps(a, sort_keys=True) == json.dumps(b, sort_keys=True)
+    return json.dumps(_norm_tz(a), sort_keys=True) == json.dumps(_norm_tz(b), sort_keys=True)
 
 
 def norm_v(v, reg):
